@@ -904,8 +904,37 @@ func c06Bits(c *Ctx, p *Prog) {
 		c.Undecided(R, "anchor:newMask", "", "mask constructor not found")
 	}
 	// (b) set / Test: word index and bit
-	checkBit := func(fn *ssa.Function, idxParam ssa.Value, name string) {
+	var checkBit func(fn *ssa.Function, idxParam ssa.Value, name string)
+	checkBit = func(fn *ssa.Function, idxParam ssa.Value, name string) {
 		var wordIdx, bitExpr ssa.Value
+		// the bit test may be delegated to a helper of the package that receives the index unchanged and whose
+		// result is returned as it is: the helper is then the function judged
+		var deleg *ssa.Function
+		var delegParam ssa.Value
+		eachInstr(fn, func(_ *ssa.BasicBlock, in ssa.Instruction) {
+			call, ok := in.(*ssa.Call)
+			if !ok {
+				return
+			}
+			sc := call.Call.StaticCallee()
+			if sc == nil || sc.Blocks == nil || sc.Pkg != fn.Pkg {
+				return
+			}
+			for k, a := range call.Call.Args {
+				if a != idxParam || k >= len(sc.Params) {
+					continue
+				}
+				returned := false
+				for _, r := range *call.Referrers() {
+					if ret, ok := r.(*ssa.Return); ok && len(ret.Results) == 1 && ret.Results[0] == ssa.Value(call) {
+						returned = true
+					}
+				}
+				if returned {
+					deleg, delegParam = sc, sc.Params[k]
+				}
+			}
+		})
 		eachInstr(fn, func(_ *ssa.BasicBlock, in ssa.Instruction) {
 			switch x := in.(type) {
 			case *ssa.IndexAddr:
@@ -920,6 +949,10 @@ func c06Bits(c *Ctx, p *Prog) {
 				}
 			}
 		})
+		if (wordIdx == nil || bitExpr == nil) && deleg != nil {
+			checkBit(deleg, delegParam, name)
+			return
+		}
 		if wordIdx == nil || bitExpr == nil {
 			c.Undecided(R, name+":shape", p.pos(fn.Pos()), "word index or bit expression not found")
 			return
